@@ -174,16 +174,23 @@ ForcedClasses(c, g, ak) ==
 Implied(c, b, ak) == LET g == c.bcon[b.ck] IN ClassImplied(b.cls, ForcedClasses(c, g, ak), PossibleClasses(c, g, ak))
 NoRepeat3(s, f(_)) == Cardinality({ f(s[k]) : k \in Idx(s) }) = Len(s)
 
+\* Residues whose records were handed to the code in two blocks (variant "splitres": two objects, one
+\* identity).  The code classifies each block's contacts on their own, so for an interaction that touches such
+\* a residue the merged view of this specification does not say which class(es) are implied, nor that there
+\* is one entry per residue pair; those entries are judged for well-formedness and for having a contact only.
+SplitRes(c) == { c.split[k] : k \in Idx(c.split) }
+Whole(c, b) == b.i \notin SplitRes(c) /\ b.j \notin SplitRes(c)
 BList(c, s, ak, nContact, nClass, nOne) ==
-  LET l == ListOK(c, s, ak) IN
+  LET l == ListOK(c, s, ak)
+      w == SelectSeq(s, LAMBDA b : Whole(c, b)) IN
   IF l # "" THEN <<"fail", l, ak>>
   ELSE IF \E k \in Idx(s) : ~BCkOK(c, s[k]) THEN <<"fail", "PointerCoherent", "harness", ak>>
-  ELSE IF ~NoRepeat3(s, LAMBDA b : <<b.i, b.j, b.cls>>) THEN <<"fail", "NoRepeat", ak>>
+  ELSE IF ~NoRepeat3(w, LAMBDA b : <<b.i, b.j, b.cls>>) THEN <<"fail", "NoRepeat", ak>>
   ELSE LET b1 == FirstIdx(s, LAMBDA b : ~HasContact(c, b, ak))
-           b2 == FirstIdx(s, LAMBDA b : b.cls \notin 0..9 \/ ~Implied(c, b, ak)) IN
+           b2 == FirstIdx(s, LAMBDA b : b.cls \notin 0..9 \/ (Whole(c, b) /\ ~Implied(c, b, ak))) IN
   IF b1 # 0 THEN <<"fail", nContact, b1>>
   ELSE IF b2 # 0 THEN <<"fail", nClass, b2>>
-  ELSE IF ~NoRepeat3(s, LAMBDA b : <<b.i, b.j>>) THEN <<"fail", nOne, ak>>
+  ELSE IF ~NoRepeat3(w, LAMBDA b : <<b.i, b.j>>) THEN <<"fail", nOne, ak>>
   ELSE <<"ok">>
 
 C11ann(c) ==
